@@ -10,7 +10,11 @@
    store         : [first, init, certs]    certs[j] is the certificate of instance first + j - 1
    snapshot      : [first, latest, init,   the header block
                     blocks,                the certificate blocks that are completely present
-                    hdrTorn, torn]         the bytes end inside the header / inside the block after `blocks`
+                    hdrTorn, torn]         hdrTorn: the bytes end inside the header block;
+                                           torn: what follows the last complete certificate block:
+                                             ""    nothing (the bytes end at a block boundary)
+                                             "len" a complete length prefix and not one byte of the block
+                                             "mid" anything else (inside the length prefix / inside the block)
    manifest      : [on, first, hasTable, table]
 
    Import is written the way the code runs (one pass over the blocks, checks in the code's order);
@@ -49,15 +53,18 @@ WellFormed(st) ==
                                 /\ TableAt(st, st.first + j) # Fail
                                 /\ st.certs[j].commit = TableAt(st, st.first + j)
 \* what an observer of a store can see: certificates, the table of every instance, the latest pointer
-Proj(st) == [first |-> st.first, latest |-> Latest(st), certs |-> st.certs,
-             tables |-> [j \in 1..(Len(st.certs) + 1) |-> TableAt(st, st.first + j - 1)]]
+RECURSIVE TabsI(_, _, _)
+TabsI(acc, cs, j) == IF j > Len(cs) THEN acc ELSE TabsI(Append(acc, ApplyDelta(acc[Len(acc)], cs[j].delta)), cs, j + 1)
+\* <<TableAt(st, first), ..., TableAt(st, latest + 1)>> in one pass (MCSnapshot checks the equality)
+Tabs(st) == TabsI(<<st.init>>, st.certs, 1)
+Proj(st) == [first |-> st.first, latest |-> Latest(st), certs |-> st.certs, tables |-> Tabs(st)]
 UpTo(st, e) == [st EXCEPT !.certs = SubSeq(st.certs, 1, e - st.first + 1)]
 
 \* ------------------------------------------------------------------ export
 Export(st, e) ==
   [first |-> st.first, latest |-> e, init |-> st.init,
    blocks |-> SubSeq(st.certs, 1, IF ExportInclusive THEN e - st.first + 1 ELSE e - st.first),
-   hdrTorn |-> FALSE, torn |-> FALSE]
+   hdrTorn |-> FALSE, torn |-> ""]
 
 \* ------------------------------------------------------------------ import, as coded
 NoManifest == [on |-> FALSE, first |-> 0, hasTable |-> FALSE, table |-> Fail]
@@ -82,17 +89,21 @@ Import(s, m, F) ==
   ELSE IF CheckManifest /\ m.on /\ m.hasTable /\ m.table # s.init THEN Rej("manifest table")
   ELSE LET r == Scan(s, 1, s.first, s.init, F) IN
        IF ~r.ok THEN r
+       \* readSnapshotBlockBytes on a torn tail: io.ErrUnexpectedEOF (an error) - except when the bytes end right
+       \* after a complete length prefix: io.ReadFull has read nothing and answers io.EOF, which the import loop
+       \* takes for the end of the stream.  The checks below then decide (a strict prefix of an export always
+       \* lacks its last certificate).
+       ELSE IF s.torn = "mid" THEN Rej("torn")
        ELSE IF s.blocks = <<>> THEN Rej("no certificate")
-       \* a torn tail is a decode error or is read as the end of the stream; in the latter case the
-       \* checks below decide (a strict prefix of an export always lacks its last certificate)
        ELSE IF CheckHeaderLatest /\ s.blocks[Len(s.blocks)].inst # s.latest THEN Rej("latest")
        ELSE IF CheckFinal /\ r.table # s.blocks[Len(s.blocks)].commit THEN Rej("final table")
-       ELSE IF s.torn THEN Rej("torn")
        ELSE [ok |-> TRUE, why |-> "", store |-> [first |-> s.first, init |-> s.init, certs |-> s.blocks]]
 
 \* ------------------------------------------------------------------ the property's reasons to reject
 Announced(s) == s.latest - s.first + 1            \* number of certificates the header announces
-IsTruncated(s) == s.hdrTorn \/ s.torn \/ Len(s.blocks) < Announced(s)
+\* truncated = content the header announces is missing.  Bytes after the last announced certificate are not part
+\* of the snapshot; cutting *them* is not a truncation of the snapshot (s.torn alone proves nothing).
+IsTruncated(s) == s.hdrTorn \/ Len(s.blocks) < Announced(s)
 IsGap(s) == \/ (s.blocks # <<>> /\ s.blocks[1].inst > s.first)
             \/ \E j \in 1..(Len(s.blocks) - 1) : s.blocks[j + 1].inst > s.blocks[j].inst + 1
 IsReorder(s) == \/ (s.blocks # <<>> /\ s.blocks[1].inst < s.first)
